@@ -84,10 +84,10 @@ Proof.
   intros lim E.
   assert (Ee : init_entries Z zops ex_target idx2 false lim = [(2 ^ 58, Some [(0, 0)]); (3 * 2 ^ 58, Some [(0, 1)])]).
   { unfold init_entries. rewrite E. vm_compute. reflexivity. }
-  rewrite Ee. split; [|split; [|vm_compute; reflexivity]].
+  clear Ee. split; [|split; [|split; [|vm_compute; reflexivity]]].
   - intros id [ <- | [ <- | [] ] ]; exists 1; (split; [lia|split; [vm_compute; split; reflexivity|vm_compute; reflexivity]]).
-  - intros c [ <- | [ <- | [] ] ] _; [exists (2 ^ 58, Some [(0, 0)])|exists (3 * 2 ^ 58, Some [(0, 1)])];
-      (split; [cbn; auto|left; split; reflexivity]).
+  - cbn. constructor; [constructor; [constructor|constructor]|]. constructor; [vm_compute; reflexivity|constructor].
+  - intros c [ <- | [ <- | [] ] ] _; [exists (2 ^ 58)|exists (3 * 2 ^ 58)]; (split; [cbn; auto|left; cbn [fst]; vm_compute; split; discriminate]).
 Qed.
 
 Example wf_premises_satisfiable :
